@@ -85,7 +85,10 @@ def observe(inputs, cli_sample=0, rng=None, workers=12):
     answers = pool.run(jobs)
     cli = {}
     if cli_sample:
-        idx = rng.sample(range(len(inputs)), min(cli_sample, len(inputs)))
+        # every unmutated seed goes through the command line as well, plus a seeded sample of the mutants
+        seeds = [i for i, (k, _, _) in enumerate(inputs) if k.startswith("seed:")]
+        rest = [i for i in range(len(inputs)) if not inputs[i][0].startswith("seed:")]
+        idx = seeds + rng.sample(rest, min(cli_sample, len(rest)))
         sut = vlib.sut()
         from concurrent.futures import ThreadPoolExecutor
 
